@@ -68,11 +68,18 @@ func genMaxSatAPI(r *Rng, tier string) MaxSatCase {
 		default: // PB
 			c.Coeffs = make([]int, k)
 			sum := 0
+			lo := 0
+			neg := r.Chance(1, 4) // coefficients of either sign
 			for j := range c.Coeffs {
 				c.Coeffs[j] = r.Range(1, 5)
-				sum += c.Coeffs[j]
+				if neg && r.Chance(1, 2) {
+					c.Coeffs[j] = -c.Coeffs[j]
+					lo += c.Coeffs[j]
+				} else {
+					sum += c.Coeffs[j]
+				}
 			}
-			c.AtLeast = r.Range(1, sum)
+			c.AtLeast = r.Range(lo+1, sum)
 			if r.Chance(1, 12) {
 				c.AtLeast = sum + 1
 			}
